@@ -102,20 +102,23 @@ def sweep(chk, r, root, df, in_parts, npart, mode, kinds, positions, tag):
     if base["outcome"] != "returned":
         chk.violation(f"faults/fault-free-run-raises/{mode}", dict(api="pack_partitions_to_parquet", mode=mode, outcome=base["outcome"])); return
     ref = strip(base["snap"])
-    rep0 = dict(api="pack_partitions_to_parquet", rows=len(df), input_partitions=in_parts, npartitions=npart, tempdir=mode, calls=K, retry=RETRY)
+    rep0 = dict(api="pack_partitions_to_parquet", rows=len(df), duplicate_points=len({tuple(b) for b in df["geometry"].array.bounds.tolist()}) < len(df),
+                input_partitions=in_parts, npartitions=npart, tempdir=mode, calls=K, retry=RETRY)
     pos_list = list(range(1, K + 1)) if positions == "all" else sorted(r.sample(range(1, K + 1), min(K, positions)))
+    n_ls = sum(1 for c in base["log"] if c[0] == "ls"); n_open = sum(1 for c in base["log"] if c[0] == "open")
     outcomes = {"returned-identical": 0, "raised": 0}
     for kind in kinds:
-        for k in pos_list:
-            name = base["log"][k - 1][0]
-            if kind == "stale" and name != "ls":
-                continue
-            if kind == "partial" and name != "open":
-                continue
+        # the order of the calls differs from run to run (dask orders tasks by their random keys), so a stale listing is
+        # planned as "the j-th ls" and a partial write as "the j-th open", for every j
+        keys = [("ls", j) for j in range(1, n_ls + 1)] if kind == "stale" else [("open", j) for j in range(1, n_open + 1)] if kind == "partial" else pos_list
+        for k in keys:
+            name = k[0] if isinstance(k, tuple) else base["log"][k - 1][0]
             res = one_run(df, in_parts, npart, mode, {k: kind}, root)
             chk.evaluated()
-            rep = dict(rep0, fault=dict(position=k, kind=kind, call=list(base["log"][k - 1])), fired=[list(x) for x in res["fired"]])
-            where = base["log"][k - 1][0] + ":" + os.path.basename(base["log"][k - 1][1])[:24]
+            rep = dict(rep0, fault=dict(position=list(k) if isinstance(k, tuple) else k, kind=kind), fired=[list(x) for x in res["fired"]])
+            # the call the fault actually hit in this run
+            where = (res["fired"][0][1] if res["fired"] else name) + ":"
+            name = where.split(":")[0]
             if res["outcome"] == "returned":
                 got = strip(res["snap"])
                 if got != ref:
@@ -152,7 +155,7 @@ def run_cases(chk, tier):
         sweep(chk, r, root, df, 2, 3, "inside", ["fnf", "stale", "partial"], "all" if tier != "quick" else 40, "base-kinds")
         # empty output partitions + external temp dir
         dfd = make_frame(r, 9, dup=True)
-        sweep(chk, r, root, dfd, 2, 5, "outside-uuid", ["oserror"], "all" if tier != "quick" else 45, "empties")
+        sweep(chk, r, root, dfd, 2, 5, "outside-uuid", ["oserror"], "all", "empties")
         if tier != "quick":
             sweep(chk, r, root, dfd, 2, 5, "outside-plain", ["oserror", "fnf", "stale", "partial"], "all", "empties-plain")
             # pairs of faults and repeats up to / beyond the retry budget
@@ -192,4 +195,30 @@ def main(tier):
 
 
 def replay(path):
-    print(open(path).read()[:3000]); return 0
+    """re-run the recorded configuration with the recorded fault (the order of the filesystem calls varies from run to run, so the
+    fault is tried a few times and at the neighbouring positions); exit 1 when a run returns normally with a different dataset"""
+    import dask
+    rep = json.load(open(path))
+    print(json.dumps({k: rep[k] for k in rep if k not in ("got", "expected")})[:1500])
+    if "fault" not in rep:
+        return 0
+    dask.config.set(scheduler="synchronous")
+    r = common.rng(PROP)
+    df = make_frame(r, rep["rows"], dup=rep.get("duplicate_points", rep["rows"] == 9))
+    root = tempfile.mkdtemp(prefix="spv_c19_replay_")
+    try:
+        base = one_run(df, rep["input_partitions"], rep["npartitions"], rep["tempdir"], {}, root)
+        ref = strip(base["snap"])
+        pos, kind = rep["fault"]["position"], rep["fault"]["kind"]
+        keys = [tuple(pos)] * 3 if isinstance(pos, list) else [pos, pos, pos - 1, pos + 1, pos - 2, pos + 2]
+        for k in keys:
+            res = one_run(df, rep["input_partitions"], rep["npartitions"], rep["tempdir"], {k: kind}, root)
+            same = res["outcome"] != "returned" or strip(res["snap"]) == ref
+            print(json.dumps(dict(plan=[k, kind], fired=[list(x) for x in res["fired"]], outcome=res["outcome"], identical_or_raised=same)))
+            if not same:
+                got = strip(res["snap"])
+                print(json.dumps({d: dict(got=got[d], expected=ref[d]) for d in ref if got.get(d) != ref[d]})[:2000])
+                return 1
+    finally:
+        shutil.rmtree(root, ignore_errors=True)
+    return 0
